@@ -28,6 +28,8 @@ import GraphiqModel.Proofs.FuseLoop
 import GraphiqModel.Proofs.MetricsHistInv
 import GraphiqModel.Proofs.MetricsHistReach
 import GraphiqModel.Proofs.MetricsHist
+import GraphiqModel.Proofs.MetricsHistFuse
+import GraphiqModel.Proofs.MetricsHistCheck
 namespace Graphiq.C12
 open Graphiq Graphiq.Dag Graphiq.Metrics Relation
 
@@ -597,6 +599,27 @@ theorem group_is_fuse_of_runs_after_any_history (ne np nc : Nat) (es : List Edit
   obtain ⟨⟨P, g⟩, hh⟩ := groupHyp_on_every_reachable_circuit ne np nc es hok
   obtain ⟨e, P', g', hw, _, _, hfl⟩ := group_is_fuse_of_runs_on_wires g hh
   exact ⟨P, g, e, P', g', hw, hfl⟩
+
+/-- **`group_one_qubit_gates` = fuse of runs, classical wiring included.**  `wiredWire c P r` is the operation sequence of the wire of
+    `r` with every operation restricted to the classical registers it is actually threaded on (`insert_at` threads none).  On every
+    circuit satisfying DagInv with graphiq-constructed operations the call does not raise, keeps `GroupHyp` and the register counts,
+    and every wire's sequence becomes `fuseWire` of what it was: the persisting operations keep their classical threading (classical
+    wires are literally unchanged), the wrappers are threaded on their quantum register only. -/
+theorem group_is_fuse_of_runs_on_wired_wires {c : Dag} {P : Reg → List NodeId} (g : Good c P) (hh : GroupHyp c) :
+    c.groupOneQubitGates.2 = none ∧ ∃ P', Good c.groupOneQubitGates.1 P' ∧ GroupHyp c.groupOneQubitGates.1 ∧
+      c.groupOneQubitGates.1.regs = c.regs ∧
+      ∀ r, wiredWire c.groupOneQubitGates.1 P' r = fuseWire r (wiredWire c P r) :=
+  groupOneQubitGates_wiredWire g hh
+
+/-- … evaluated in the kernel on the circuit of §8 with a measurement inserted by `insert_at` (classical register `c0` left
+    unthreaded) before the last gate of `e0`: every wire of the grouped circuit, as `reg_gate_history` returns it, carries `fuseWire`
+    of the wire before -/
+def gInsC : Dag :=
+  ((build 1 2 1 gseq).1.insertAt mcrE0P1 [⟨.op 6, .op 7, ⟨.e, 0⟩⟩, ⟨.op 6, .out ⟨.p, 1⟩, ⟨.p, 1⟩⟩]).1
+
+example : gInsC.groupOneQubitGates.2 = none ∧
+    ∀ r ∈ liveRegs gInsC, wiredWire gInsC.groupOneQubitGates.1 (wireOf gInsC.groupOneQubitGates.1) r =
+      fuseWire r (wiredWire gInsC (wireOf gInsC) r) := by decide +kernel
 
 /-- the hypothesis is sharp in the only direction left: an operation object that is groupable but is NOT a one-qubit gate
     object (here: class `Hadamard`, label "one-qubit", two quantum registers — not constructible with graphiq's classes)
